@@ -213,6 +213,33 @@ pub fn c18(cx: &mut Ctx) {
             }
         }
     }
+    // framing chosen by the caller's headers, in the spellings the request analysis accepts
+    let variants: Vec<Vec<(&str, &[u8])>> = vec![
+        vec![("transfer-encoding", b"chunked")],
+        vec![("transfer-encoding", b"Chunked")],
+        vec![("transfer-encoding", b"CHUNKED"), ("content-length", b"5")],
+        vec![("content-length", b"100000"), ("transfer-encoding", b"chunKed")],
+        vec![("transfer-encoding", b"gzip"), ("content-length", b"100000")],
+        vec![("content-length", b"100000")],
+    ];
+    for (vi, v) in variants.iter().enumerate() {
+        for despite in [false, true] {
+            cx.case("hdr");
+            let m = if despite { "GET" } else { "POST" };
+            cx.rec.new_flow(&format!("{} HTTP/1.1 http://a.test/p {}", m, super::hdrs(v)));
+            if despite { cx.op("despite"); }
+            cx.op("proceed");
+            cx.op("write 4096");
+            cx.op("proceed");
+            if cx.rec.state() != "sendBody" { continue; }
+            cx.op("chunked?");
+            for n in [0usize, 1, 5, 6, 8, 9, 10, 21, 22, 100, 263, 4104, 10248, 10249, 10300 + vi] {
+                let res = cx.op(&format!("maxin {}", n));
+                let m: usize = res.split(' ').nth(1).unwrap().parse().unwrap();
+                if m > 0 { bwrite(cx, n, m, n); }
+            }
+        }
+    }
     for batch in ns.chunks(64) {
         cx.case("sized");
         if !to_send_body(cx, "POST", "HTTP/1.1", Some(u64::MAX), false) { continue; }
